@@ -249,25 +249,43 @@ class Node(object):
     def ev_calc(self, tbl, which, *a):
         pt = self.pt
         t = self.table(tbl)
-        if which == "nscat":
+        opts = a[-1] if a and isinstance(a[-1], dict) else {}
+        if opts:
+            a = a[:-1]
+        if which in ("nscat", "nsld"):
             s, density, wl = a
             f = self._formula(tbl, s)
-            return canon(pt.neutron_scattering(f, density=density, wavelength=wl))
-        if which == "nsld":
-            s, density, wl = a
-            f = self._formula(tbl, s)
-            return canon(pt.neutron_sld(f, density=density, wavelength=wl))
+            kw = {"natural_density" if opts.get("natural") else "density": density}
+            if opts.get("vector"):
+                import numpy as np
+                wl = np.array([wl, 2 * wl, 0.25 * wl])
+            if opts.get("energy"):
+                nsf = self.module("periodictable.nsf")
+                kw["energy"] = nsf.neutron_energy(wl)
+            else:
+                kw["wavelength"] = wl
+            fn = pt.neutron_scattering if which == "nscat" else pt.neutron_sld
+            return canon(fn(f, **kw))
         if which == "xsld":
             s, density, en = a
             f = self._formula(tbl, s)
-            return canon(pt.xray_sld(f, density=density, energy=en))
+            kw = {"natural_density" if opts.get("natural") else "density": density}
+            if opts.get("wavelength"):
+                xsf = self.module("periodictable.xsf")
+                kw["wavelength"] = xsf.xray_wavelength(en)
+            else:
+                kw["energy"] = en
+            return canon(pt.xray_sld(f, **kw))
         if which == "volume":
             (s,) = a
+            if "packing" in opts:
+                return canon(self._formula(tbl, s).volume(packing_factor=opts["packing"]))
             return canon(self._formula(tbl, s).volume())
         if which == "activation":
             s, mass, fluence, exposure, rest = a[:5]
             act = self.module("periodictable.activation")
-            env = act.ActivationEnvironment(fluence=fluence, Cd_ratio=70, fast_ratio=50, location="BT-2")
+            env = act.ActivationEnvironment(fluence=fluence, Cd_ratio=opts.get("cd", 70),
+                                            fast_ratio=opts.get("fast", 50), location="BT-2")
             sample = act.Sample(self._formula(tbl, s), mass)
             kw = {}
             if len(a) > 5 and a[5] == "iaea":
